@@ -289,6 +289,51 @@ def r6(m):
     return bad
 
 
+FRAME = {
+    # operation -> parts of the module it may change (everything else must be identical before/after)
+    "insert": {"nodes", "channels", "currents"}, "delete_channel": {"nodes", "channels", "currents"}, "set": {"nodes", "edges"},
+    "init_states": {"nodes"}, "record": {"recordings"}, "delete_recordings": {"recordings"}, "stimulate": {"externals:i"},
+    "clamp": {"externals:clamp"}, "delete_stimuli": {"externals:i"}, "delete_clamps": {"externals:clamp"},
+    "make_trainable": {"trainable_params"}, "delete_trainables": {"trainable_params"}, "add_to_group": {"groups"},
+    "connect": {"edges", "synapses"}, "set_ncomp": {"nodes", "groups", "ncomp_per_branch"},
+}
+
+
+def frame_violation(op, a, b):
+    """which parts of the module changed although the operation is not about them"""
+    allowed = FRAME.get(op[0], set())
+    changed = set()
+    for k in ("nodes", "edges", "recordings"):
+        x, y = a[k], b[k]
+        same = list(x.columns) == list(y.columns) and len(x) == len(y)
+        if same:
+            for c in x.columns:
+                if c == "controlled_by_param":
+                    continue
+                u, w = x[c].to_numpy(), y[c].to_numpy()
+                try:
+                    same = same and np.array_equal(u.astype(float), w.astype(float), equal_nan=True)
+                except (TypeError, ValueError):
+                    same = same and list(u) == list(w)
+        else:
+            same = set(x.columns) - {"controlled_by_param"} == set(y.columns) - {"controlled_by_param"} and len(x) == len(y) and False
+        if not same:
+            changed.add(k)
+    for key in set(a["externals"]) | set(b["externals"]):
+        x, y = a["externals"].get(key), b["externals"].get(key)
+        xi, yi = a["external_inds"].get(key), b["external_inds"].get(key)
+        if x is None or y is None or x.shape != y.shape or not np.array_equal(x, y, equal_nan=True) or not np.array_equal(xi, yi):
+            changed.add("externals:i" if key == "i" else "externals:clamp")
+    if set(a["groups"]) != set(b["groups"]) or any(not np.array_equal(a["groups"][g], b["groups"][g]) for g in a["groups"]):
+        changed.add("groups")
+    if len(a["trainable_params"]) != len(b["trainable_params"]) or len(a["indices_set_by_trainables"]) != len(b["indices_set_by_trainables"]):
+        changed.add("trainable_params")
+    for k in ("channels", "currents", "synapses", "ncomp_per_branch"):
+        if a[k] != b[k]:
+            changed.add(k)
+    return sorted(changed - allowed)
+
+
 def apply(m, modname, op, rng):
     import jax.numpy as jnp
     import jaxley.channels as chm
@@ -394,6 +439,10 @@ def run_history(rec, modname, hist, kind):
                 rec.info.setdefault("refusal_with_side_effects", []).append({"op": op, "changed": diff[:5], "error": repr(e)[:120]})
                 return  # the module is in an unknown state: stop this history (reported in evidence, not judged)
             continue
+        fr = frame_violation(op, before, snapshot(m))
+        if fr:
+            rec.violated("R6", step=step, op=op, invariants=["frame"], messages=[f"{op[0]} changed {fr} (outside what the operation is about)"], **tag)
+            return
         viol = r6(m)
         if viol:
             ids = sorted({v[0] for v in viol})
